@@ -78,6 +78,12 @@ def correspondence(ctx, model_ok, tmp):
     reg.registerDatasetType(dt2)
     KEYS = [1, 2, 3]
     RUNS = ["r1", "r2", "r3", "r4"]
+    # observation days whose timespans sit on the grid: a data ID that names one carries a timespan of its own
+    DAYS = {1: (10, 20), 2: (20, 30), 3: (21, 40), 4: (0, 10)}
+    for d_, (x_, y_) in DAYS.items():
+        reg.insertDimensionData("day_obs", {"instrument": "I", "id": d_, "timespan": Timespan(None, None, _nsec=(x_, y_))})
+    from lsst.daf.butler import DatasetNotFoundError
+    tconv = TimeConverter()
 
     def mk(bb, ee):
         return Timespan(None, None, _nsec=(bb, ee))
@@ -327,6 +333,59 @@ def correspondence(ctx, model_ok, tmp):
                              f"lookup:{ops_log}:{k}:{qb}:{qe}", {"kind": "history", "ops": ops_log, "lookup": [k, qb, qe], "got": out})
                 if outs[0] != outs[1]:
                     ctx.broken.append(f"Registry.findDataset and Butler.find_dataset disagree: {outs} after {ops_log}")
+            # ---- observe: instants.  `bias.timespan OVERLAPS <time>` at the exact ends and begins of the ranges on record (a
+            # validity range is half-open: its end instant is outside), plus one instant at random
+            if not bad:
+                k = rng.choice(KEYS)
+                ends = sorted({v for kk, d, x, y in rows if kk == k for v in (x, y)} & set(P) - {0, MAX - 1})
+                inst = (rng.sample(ends, min(3, len(ends))) if ends else []) + [rng.choice(P[1:-1])]
+                for t in inst:
+                    try:
+                        found = b.query_datasets(dt, collections=[coll], find_first=False, explain=False, bind={"t": tconv.nsec_to_astropy(t)},
+                                                 where=f"instrument = 'I' AND detector = {k} AND {dt.name}.timespan OVERLAPS t")
+                        got = sorted(id2i[r.id] for r in found)
+                    except Exception as e:
+                        got = f"err INTERNAL:{type(e).__name__}"
+                    ctx.evaluations += 1
+                    ctx.count("instant-probe")
+                    if got != sorted(valid[k][t]):
+                        viol(f"Butler.query_datasets(where='{dt.name}.timespan OVERLAPS t', t = instant {t} ns) for detector {k} gives datasets {got}; "
+                             f"valid at that instant: {sorted(valid[k][t])} (ranges on record for that data ID: "
+                             f"{[(d, x, y) for kk, d, x, y in rows if kk == k]})",
+                             f"instant:{ops_log}:{k}:{t}", {"kind": "history", "ops": ops_log, "instant": [k, t], "got": got})
+                        bad = True
+                        break
+            # ---- observe: Butler.getDeferred (the lookup of Butler.get) with a data ID that carries a timespan of its own (day_obs) and,
+            # half of the time, an explicit timespan too, which then is the one that counts
+            if not bad:
+                for _ in range(2):
+                    k = rng.choice(KEYS)
+                    day = rng.choice(sorted(DAYS))
+                    q = None if rng.random() < 0.4 else (rand_ts() if rng.random() < 0.7 else mk(*(lambda x: (x, x + 1))(rng.choice(P))))
+                    qb, qe = DAYS[day] if q is None else q.nsec
+                    try:
+                        ref = b.getDeferred(dt, instrument="I", detector=k, day_obs=day, collections=[coll], timespan=q).ref
+                        out = f"one {id2i[ref.id]}"
+                    except DatasetNotFoundError:
+                        out = "none"
+                    except CalibrationLookupError:
+                        out = "ambiguous"
+                    except Exception as e:
+                        out = f"err INTERNAL:{type(e).__name__}"
+                    ctx.evaluations += 1
+                    ctx.count("getDeferred-day_obs" + ("" if q is None else "+timespan"))
+                    D = set()
+                    for t in P:
+                        if qb <= t < qe:
+                            D |= valid[k][t]
+                    okk = ((len(D) == 0 and out == "none") or (len(D) == 1 and out in (f"one {next(iter(D))}", "ambiguous"))
+                           or (len(D) >= 2 and out == "ambiguous"))
+                    if not okk:
+                        viol(f"Butler.getDeferred(bias, detector={k}, day_obs={day} (timespan [{DAYS[day][0]},{DAYS[day][1]})), "
+                             f"timespan={'None' if q is None else f'[{qb},{qe})'}) = {out}; datasets valid in [{qb},{qe}): {sorted(D)}",
+                             f"getdeferred:{ops_log}:{k}:{day}:{qb}:{qe}", {"kind": "history", "ops": ops_log, "lookup": [k, day, qb, qe], "got": out})
+                        bad = True
+                        break
         if {"accepted", "refused"} <= flags or "decertified" in flags:
             ctx.nontrivial.add(repr(ops_log))
         for op in ops_log:
